@@ -187,6 +187,12 @@ func C31(e *simkern.Env) {
 					if u, err := url.Parse(target); err == nil {
 						loc = u.RequestURI() // path-relative
 					}
+				} else if tp.Bool(1, 8) {
+					// an origin that forwards the caller's query string into a
+					// Location it builds badly (an unescaped '%'): the client cannot
+					// parse it, the hop fails — and the failure must not quote it
+					sim.Fault("malformed-redirect-location")
+					loc = f.prefix + "archive/100%/blob?" + req.URL.RawQuery
 				}
 				if f.depth >= maxRedirects {
 					sim.Fault("redirect-beyond-limit")
@@ -371,12 +377,12 @@ func init() {
 	Registry["C31"] = &Info{
 		Run:   C31,
 		Level: "exploration",
-		Rule:  "each run draws max_redirects {1,2,3,5}, max_retries {0,1,2,3,5,10}, the retry delay, whether the harness validator echoes the URL in its error, and 1-3 concurrent fetches; every fetch draws a URL shape (userinfo, port, fragment, bare query, escapes, upper-case scheme) with unique secrets in query and userinfo, an IPC payload raw or zstd (one, two or three concatenated frames) with or without Content-Length, an HTTP client with or without a redirect policy of its own, and fetch / decompression caps at, just under, just over or far from the actual sizes; the origin draws per attempt a redirect chain of 0-8 hops (allowed hosts, forbidden hosts, http scheme, absolute / scheme-relative / path-relative Location, statuses 301-308) ending in 200 / 503 / 404 / connect error / body cut; retry delays elapse on the simulated clock; distinct = distinct schedule fingerprint (every origin request is a scheduling point); non-trivial = a redirect or retry happened or two fetches interleaved",
+		Rule:  "each run draws max_redirects {1,2,3,5}, max_retries {0,1,2,3,5,10}, the retry delay, whether the harness validator echoes the URL in its error, and 1-3 concurrent fetches; every fetch draws a URL shape (userinfo, port, fragment, bare query, escapes, upper-case scheme) with unique secrets in query and userinfo, an IPC payload raw or zstd (one, two or three concatenated frames) with or without Content-Length, an HTTP client with or without a redirect policy of its own, and fetch / decompression caps at, just under, just over or far from the actual sizes; the origin draws per attempt a redirect chain of 0-8 hops (allowed hosts, forbidden hosts, http scheme, absolute / scheme-relative / path-relative / unparseable Location that repeats the query string of the request, statuses 301-308) ending in 200 / 503 / 404 / connect error / body cut; retry delays elapse on the simulated clock; distinct = distinct schedule fingerprint (every origin request is a scheduling point); non-trivial = a redirect or retry happened or two fetches interleaved",
 		Real:  []string{"vgirpc.ResolveExternalLocation, fetchExternalData (CheckRedirect, caps), decompressZstdCapped, redactExternalURL", "net/http.Client redirect machinery", "klauspost zstd decoder", "testing/synctest clock (retry delays)"},
 		Stub:  []string{"origin behind http.RoundTripper (fetchw.Origin)", "URL validator (allow list of hosts + https)"},
 		Quick: 2400, Thorough: 400000,
 		Warm:       warmFetch,
-		FaultKinds: []string{"connect-error", "http-5xx", "not-found", "body-cut", "forbidden-redirect", "forbidden-initial-url", "redirect-beyond-limit", "oversize-body", "oversize-decoded", "multi-frame-zstd"},
+		FaultKinds: []string{"connect-error", "http-5xx", "not-found", "body-cut", "forbidden-redirect", "forbidden-initial-url", "redirect-beyond-limit", "oversize-body", "oversize-decoded", "multi-frame-zstd", "malformed-redirect-location"},
 		Assumptions: []string{
 			"attempt bound = min(max_retries+1, 3) for max_retries >= 1 and 3 (the stated cap) for max_retries = 0 (library default)",
 			"an attempt = a request not caused by a redirect (http.Request.Response == nil); redirects followed are counted per attempt",
